@@ -357,26 +357,25 @@ func c17Lookup(c *core.Ctx, k int) {
 	}
 	nPresent := (len(tuples) + 1) / 2
 	if len(cfg.types) == 2 && cfg.types[0] == "string" && cfg.types[1] == "string" {
-		// two tuples that read the same once their components are joined with a comma: one present, one asked for
+		// tuples that read the same once their components are joined with a comma: one pair with both present (either order in
+		// the store), one pair with one present and the other asked for
 		var rest [][]string
 		for _, tu := range tuples {
-			if j := strings.Join(tu, ","); j != "a,b,c" {
+			if j := strings.Join(tu, ","); j != "a,b,c" && j != "x,y,z" {
 				rest = append(rest, tu)
 			}
 		}
-		pair := [][]string{{"a", "b,c"}, {"a,b", "c"}}
+		both := [][]string{{"a", "b,c"}, {"a,b", "c"}}
+		one := [][]string{{"x", "y,z"}, {"x,y", "z"}}
 		if r.Intn(2) == 0 {
-			pair[0], pair[1] = pair[1], pair[0]
+			both[0], both[1] = both[1], both[0]
 		}
-		tuples = append([][]string{pair[0]}, rest...)
-		nPresent = (len(tuples) + 1) / 2
 		if r.Intn(2) == 0 {
-			// both present
-			tuples = append([][]string{pair[1]}, tuples...)
-			nPresent++
-		} else {
-			tuples = append(tuples, pair[1])
+			one[0], one[1] = one[1], one[0]
 		}
+		tuples = append([][]string{both[0], one[0], both[1]}, rest...)
+		nPresent = 3 + len(rest)/2
+		tuples = append(tuples, one[1])
 	}
 	root := dp.NewDNode(nil)
 	dl := &dp.DList{S: lst}
